@@ -10,7 +10,8 @@ assembly machine runs from s to s' without stopping.  `Placed C pc c`: the code 
 index pc.  `VarsRel cx sc env locals args`: the compile-time scopes `sc` (vars.go) and the machine's slots
 describe the run-time environment `env`.
 -/
-import NeoModel.Proofs.CompileLabels
+import NeoModel.Proofs.CompileAsm
+import NeoModel.Proofs.CompileFault
 namespace NeoModel.C14
 open NeoModel.MiniVm NeoModel.MiniVm.Asm NeoModel.MiniGo NeoModel.Compile NeoModel.CompileProofs
 
@@ -199,6 +200,155 @@ example : ∃ pc0 n, findLabel (compProg exP) (fnLabel exP "sum") = some pc0 ∧
   simpa using compile_prog_correct_partial exP exP_allowed "sum" [.int 10] [] (.int 148) 60 (by rfl) (by decide)
 example : (labelsOf (compProg exP)).Nodup := (compile_labels_unique exP).1
 end example_prog
+
+/-- (3) the assembler (writeJumps + removeNOPs): under the decidable layout condition `layoutOK c` the byte machine
+    on `assemble c` simulates the assembly machine on `c` — whatever the assembly machine reaches in `n` steps
+    (a running state, HALT with a stack, FAULT) the byte machine reaches in at most `n` steps, with every program
+    counter (current and saved return addresses) replaced by the final byte offset of that item.  `_partial`: the
+    layout condition is evaluated per program (driver `layout` line; `decide` below), not proved for all of them. -/
+theorem assemble_simulates_partial (c : Code) (hl : layoutOK c = true) (n : Nat) (s : State) :
+    ∃ m, m ≤ n ∧ Byte.run (assemble c) m (mapS c s) = mapO c (Asm.run c n s) :=
+  asm_run_sim c hl n s
+
+/-- (2)+(3) composed, down to the script bytes: the offset the assembler assigns to the mark of function `f` is a
+    valid entry point of `compile P`, and the byte machine started there with the arguments on the stack halts with
+    the value the Go semantics returns. -/
+theorem compile_bytes_correct_partial (P : Prog) (hall : ∀ d ∈ P, Allowed false d.body)
+    (hl : layoutOK (compProg P) = true)
+    (f : String) (vs rest : List Val) (v : Val) (fuel : Nat)
+    (hrun : callF fuel P f vs = .ok v) (hdep : fuel < 1024) :
+    ∃ off m, labelOffset (compProg P) (fnLabel P f) = some off ∧
+      Byte.run (compile P) m { pc := off, stack := vs ++ rest, locals := [], args := [], frames := [] } = .halt (v :: rest) := by
+  obtain ⟨pc0, n, hf, hr⟩ := compile_prog_correct_partial P hall f vs rest v fuel hrun hdep
+  obtain ⟨m, _, hm⟩ := asm_halt_sim _ hl n _ _ hr
+  exact ⟨fposAt (compProg P) pc0, m, labelOffset_of_findLabel _ _ _ hf, by simpa [mapS, compile] using hm⟩
+
+/-- … and so is the offset the debug info / manifest lists for the method (`debugOffset`, which is `labelOffset`
+    unless the method is the single-instruction case that debug.go drops). -/
+theorem manifest_offset_correct_partial (P : Prog) (hall : ∀ d ∈ P, Allowed false d.body)
+    (hl : layoutOK (compProg P) = true)
+    (f : String) (vs rest : List Val) (v : Val) (fuel off : Nat)
+    (hoff : debugOffset (compProg P) P.length (fnLabel P f) = some off)
+    (hrun : callF fuel P f vs = .ok v) (hdep : fuel < 1024) :
+    ∃ m, Byte.run (compile P) m { pc := off, stack := vs ++ rest, locals := [], args := [], frames := [] } = .halt (v :: rest) := by
+  obtain ⟨off', m, ho, hm⟩ := compile_bytes_correct_partial P hall hl f vs rest v fuel hrun hdep
+  have : off = off' := by
+    unfold debugOffset at hoff
+    rw [ho] at hoff
+    simp only [] at hoff
+    split at hoff <;> split at hoff <;> first | (cases hoff; done) | (cases hoff; rfl)
+  exact ⟨m, this ▸ hm⟩
+
+/-! non-vacuity: the layout condition holds for the compiled example program (kernel evaluation of the assembler and
+    the decoder on its 54 script bytes), the manifest offset of `sum` is listed, and the script run from it returns 148. -/
+theorem exP_layout : layoutOK (compProg exP) = true := by decide
+example : debugOffset (compProg exP) exP.length (fnLabel exP "sum") = some 17 := by decide
+example : ∃ m, Byte.run (compile exP) m { pc := 17, stack := [.int 10], locals := [], args := [], frames := [] } = .halt [.int 148] := by
+  simpa using manifest_offset_correct_partial exP exP_allowed exP_layout "sum" [.int 10] [] (.int 148) 60 17 (by decide) (by rfl) (by decide)
+
+
+/-- (5) panic → FAULT, expressions: an expression of a function of `P` whose Go evaluation panics — an integer
+    division or remainder by zero in the expression, or a division by zero / an explicit `panic(v)` in a function
+    it calls (the run-time panics of the core) — FAULTs the machine, in value context and in jump context alike. -/
+theorem compile_expr_fault_partial (P : Prog) (hall : ∀ d ∈ P, Allowed false d.body) (cx : Ctx)
+    (htab : cx.funcs = funcTable P) (sc : Scopes) (env : Env) (fuel : Nat)
+    (e : Expr) (m : Mode) (nl : Nat) (s : State)
+    (hev : evalE fuel P env e = .panic)
+    (hp : Placed (compProg P) s.pc (compE cx sc e m nl).1)
+    (hrel : VarsRel cx sc env s.locals s.args) (hdep : s.frames.length + fuel < 1024)
+    (hlbl : ∀ c t, m = .jump c t → ∃ tp, findLabel (compProg P) t = some tp) :
+    ∃ n, Asm.run (compProg P) n s = .fault :=
+  (allFault (progCode_compProg P) hall fuel).expr cx sc env htab e m nl s hev hp hrel hdep hlbl
+
+/-- (5) panic → FAULT, statements: `panic(e)` (the argument is evaluated, THROW without a handler), `x /= e` and
+    `x %= e` by zero, a panic in any expression, loop clause or body at any iteration, or in a callee. -/
+theorem compile_stmt_fault_partial (P : Prog) (hall : ∀ d ∈ P, Allowed false d.body) (cx : Ctx)
+    (htab : cx.funcs = funcTable P) (fuel : Nat)
+    (s : Stmt) (lp : LoopCtx) (il : Bool) (st : St) (env : Env) (σ : State)
+    (hal : Allowed il s) (hil : il = true → ∃ b c, lp = some (b, c))
+    (hex : exec fuel P env s = .panic)
+    (hp : Placed (compProg P) σ.pc (compS cx lp s st).1)
+    (hrel : VarsRel cx st.scopes env σ.locals σ.args) (hwf : Wf st)
+    (hcnt : (compS cx lp s st).2.cnt ≤ σ.locals.length) (hdep : σ.frames.length + fuel < 1024) :
+    ∃ n, Asm.run (compProg P) n σ = .fault :=
+  (allFault (progCode_compProg P) hall fuel).stmt cx htab s lp il st env σ hal hil hex hp hrel hwf hcnt hdep
+
+/-- (5) program level: invoking a function of the compiled program whose Go evaluation panics FAULTs. -/
+theorem compile_prog_fault_partial (P : Prog) (hall : ∀ d ∈ P, Allowed false d.body)
+    (f : String) (vs rest : List Val) (fuel : Nat)
+    (hrun : callF fuel P f vs = .panic) (hdep : fuel < 1024) :
+    ∃ pc0 n, findLabel (compProg P) (fnLabel P f) = some pc0 ∧
+      Asm.run (compProg P) n { pc := pc0, stack := vs ++ rest, locals := [], args := [], frames := [] } = .fault :=
+  entry_fault (progCode_compProg P) hall hrun hdep
+
+/-- (5)+(3) down to the script bytes: the byte machine started at the method's offset FAULTs. -/
+theorem compile_bytes_fault_partial (P : Prog) (hall : ∀ d ∈ P, Allowed false d.body)
+    (hl : layoutOK (compProg P) = true)
+    (f : String) (vs rest : List Val) (fuel : Nat)
+    (hrun : callF fuel P f vs = .panic) (hdep : fuel < 1024) :
+    ∃ off m, labelOffset (compProg P) (fnLabel P f) = some off ∧
+      Byte.run (compile P) m { pc := off, stack := vs ++ rest, locals := [], args := [], frames := [] } = .fault := by
+  obtain ⟨pc0, n, hf, hr⟩ := compile_prog_fault_partial P hall f vs rest fuel hrun hdep
+  obtain ⟨m, _, hm⟩ := asm_fault_sim _ hl n _ hr
+  exact ⟨fposAt (compProg P) pc0, m, labelOffset_of_findLabel _ _ _ hf, by simpa [mapS, compile] using hm⟩
+
+/-! non-vacuity: a division by zero in a callee, reached in the fourth iteration of a loop
+      func quot(a, b int) int { return a / b }
+      func f(n int) int { s := 0; for i := 3; i >= 0; i-- { s += quot(n, i) }; return s } -/
+section example_fault
+def exQuot : FuncDecl :=
+  { name := "quot", params := ["a", "b"], hasResult := true,
+    body := .seq (.ret (some (.bin .div (.var "a") (.var "b")))) .skip }
+def exF : FuncDecl :=
+  { name := "f", params := ["n"], hasResult := true,
+    body := .seq (.define "s" (.lit 0))
+      (.seq (.loop (.define "i" (.lit 3)) (some (.bin .ge (.var "i") (.lit 0))) (.dec "i")
+              (.seq (.opAssign "s" .add (.call2 "quot" (.var "n") (.var "i"))) .skip))
+      (.seq (.ret (some (.var "s"))) .skip)) }
+def exQ : Prog := [exQuot, exF]
+
+theorem exQ_allowed : ∀ d ∈ exQ, Allowed false d.body := by
+  intro d hd
+  simp only [exQ, List.mem_cons, List.mem_nil_iff, or_false] at hd
+  rcases hd with rfl | rfl <;> simp [exQuot, exF, Allowed, NoDecl, Strict]
+
+example : callF 40 exQ "quot" [.int 7, .int 2] = .ok (.int 3) := by rfl
+example : callF 40 exQ "f" [.int 10] = .panic := by rfl
+theorem exQ_layout : layoutOK (compProg exQ) = true := by decide
+example : ∃ off m, labelOffset (compProg exQ) (fnLabel exQ "f") = some off ∧
+    Byte.run (compile exQ) m { pc := off, stack := [.int 10], locals := [], args := [], frames := [] } = .fault := by
+  simpa using compile_bytes_fault_partial exQ exQ_allowed exQ_layout "f" [.int 10] [] 40 (by rfl) (by decide)
+
+/- explicit panic in a callee
+      func lim(x int) int { if x > 2 { panic(x) }; return x }
+      func g(n int) int { s := 0; for i := 0; i < n; i++ { s += lim(i) }; return s } -/
+def exLim : FuncDecl :=
+  { name := "lim", params := ["x"], hasResult := true,
+    body := .seq (.ite (.bin .gt (.var "x") (.lit 2)) (.seq (.panicS (.var "x")) .skip) .none .skip)
+      (.seq (.ret (some (.var "x"))) .skip) }
+def exG : FuncDecl :=
+  { name := "g", params := ["n"], hasResult := true,
+    body := .seq (.define "s" (.lit 0))
+      (.seq (.loop (.define "i" (.lit 0)) (some (.bin .lt (.var "i") (.var "n"))) (.inc "i")
+              (.seq (.opAssign "s" .add (.call1 "lim" (.var "i"))) .skip))
+      (.seq (.ret (some (.var "s"))) .skip)) }
+def exR : Prog := [exLim, exG]
+
+theorem exR_allowed : ∀ d ∈ exR, Allowed false d.body := by
+  intro d hd
+  simp only [exR, List.mem_cons, List.mem_nil_iff, or_false] at hd
+  rcases hd with rfl | rfl <;> simp [exLim, exG, Allowed, NoDecl, Strict]
+
+example : callF 40 exR "g" [.int 3] = .ok (.int 3) := by rfl
+example : callF 40 exR "g" [.int 5] = .panic := by rfl
+theorem exR_layout : layoutOK (compProg exR) = true := by decide
+example : ∃ off m, labelOffset (compProg exR) (fnLabel exR "g") = some off ∧
+    Byte.run (compile exR) m { pc := off, stack := [.int 5], locals := [], args := [], frames := [] } = .fault := by
+  simpa using compile_bytes_fault_partial exR exR_allowed exR_layout "g" [.int 5] [] 40 (by rfl) (by decide)
+example : ∃ off m, labelOffset (compProg exR) (fnLabel exR "g") = some off ∧
+    Byte.run (compile exR) m { pc := off, stack := [.int 3], locals := [], args := [], frames := [] } = .halt [.int 3] := by
+  simpa using compile_bytes_correct_partial exR exR_allowed exR_layout "g" [.int 3] [] (.int 3) 40 (by rfl) (by decide)
+end example_fault
 
 /-- The excluded case is a real difference between the compiler (as modelled, codegen.go:738-764) and Go:
     `func f(x int) int { r := 0; { var x int = x + 1; r = x }; return r + x }` returns 2x+1 in Go, while the
